@@ -2635,7 +2635,7 @@ SDIfreevarAID(NC   *handle, /* IN: file handle */
         HGOTO_ERROR(DFE_ARGS, FAIL);
     }
 
-    if (index < 0 || index > handle->vars->count) {
+    if (index < 0 || index >= (int32)handle->vars->count) {
         HGOTO_ERROR(DFE_ARGS, FAIL);
     }
 
